@@ -254,3 +254,5 @@ def run(chk, tier):
     chk.guard('C01.a', lambda: c01.rule_binop(chk, prog, tier))
     from props import c05
     chk.guard('C05.c', lambda: c05.rule_binary_types(chk, prog, tier))     # the operand conversions the compiler's own arithmetic (eval.c: 64-bit shifts, comparisons) is compiled with
+    from props import c03
+    chk.guard('C03.m', lambda: c03.rule_mnemonics(chk, prog, tier))         # ... and printed under the instruction's own name: a stage 2 built from a mis-named comparison computes differently from stage 1
